@@ -44,6 +44,8 @@ BATCH = ["HDDDM", "CDBD", "KdqTreeBatch", "NNDVI"]
 def cases(tier, seed):
     n = 70 if tier == "quick" else 800
     out = [{"id": "stream/%d" % i, "kind": "stream", "seed": [seed, 12, i], "cost": 2} for i in range(n)]
+    # ensembles of warning-capable members under the two elections that can return "warning" (otherwise such verdicts are a matter of luck)
+    out += [{"id": "warnmix/%d" % i, "kind": "stream", "warn": True, "seed": [seed, 1212, i], "cost": 2} for i in range(max(8, n // 8))]
     out += [{"id": "batch/%d" % i, "kind": "batch", "seed": [seed, 120, i], "cost": 2} for i in range(n)]
     return out
 
@@ -51,7 +53,7 @@ def cases(tier, seed):
 def targets(tier):
     k = 1 if tier == "quick" else 10
     t = {"ensemble_calls": 8000 * k, "member_states_compared": 20000 * k, "histories_members_drift_at_different_steps": 60 * k,
-         "ensemble_verdict:drift": 100 * k, "ensemble_verdict:warning": 2 * k, "explicit_resets": 30 * k, "selector_calls_checked": 5000 * k}
+         "ensemble_verdict:drift": 100 * k, "ensemble_verdict:warning": 20 * k, "explicit_resets": 30 * k, "selector_calls_checked": 5000 * k}
     for e in ("SimpleMajorityElection", "MinimumApprovalElection", "OrderedApprovalElection", "ConfirmedElection", "ProbeElection"):
         t["histories:" + e] = 10 * k
     t["probe_election_calls"] = 1000 * k
@@ -159,6 +161,12 @@ def run_case(case, ctx):
     for m in range(nm):
         name = str(rng.choice(pool))
         params = zoo.draw_params(name, rng)
+        if case.get("warn"):
+            name = str(rng.choice(["DDM", "EDDM", "STEPD"]))
+            params = zoo.draw_params(name, rng)
+            # a wide zone between the warning and the drift threshold
+            params.update({"DDM": dict(warning_scale=0.5, drift_scale=3.0), "EDDM": dict(warning_thresh=0.98, drift_thresh=0.7),
+                           "STEPD": dict(alpha_warning=0.3, alpha_drift=0.003)}[name])
         if name == "PCACD":
             params["window_size"] = 20
         if name == "CUSUM" and params["target"] is None:
@@ -184,6 +192,12 @@ def run_case(case, ctx):
             if not stream:
                 seeded(obj, "set_reference", (key, mid))
     ekind, eparams, election = make_election(rng, nm)
+    if case.get("warn"):
+        if rng.random() < 0.7:
+            ekind, eparams = "ConfirmedElection", {"sensitivity": int(rng.integers(1, nm + 1)), "wait_time": int(rng.integers(0, 6))}
+            election = ConfirmedElection(**eparams)
+        else:
+            ekind, eparams, election = "ProbeElection", {}, ProbeElection()
     emodel = ElectionModel(ekind, eparams, nm)
     Ens = StreamingEnsemble if stream else BatchEnsemble
     ens = Ens(dict(members), election, dict(selectors))
